@@ -49,15 +49,19 @@ ROUTES = ["StopgapMotl(df).write_out", "StopgapMotl(StopgapMotl).write_out", "Mo
 
 
 def plan(tier):
+    # min_evals: core.py requires HALF of the stated figure.  For the three call monitors (sg_export, sg_import,
+    # write_out_file) the stated figure is 1.6 x 80% of what the driver's own DIRECT calls produce with the monitors blind to
+    # cryoCAT-internal callers (VERIF_BYPASS_INTERNAL=1: quick 819-824 / 864 / 1015-1037, thorough 14738 / 15616 / 17320), so
+    # the floor holds whatever cryoCAT's internal call structure is.  Driver monitors: ~85% of the measured counts.
     if tier == "quick":
         return dict(n_cases=len(CLASSES) * 4 * 6, shards=4, classes=CLASSES, timeout_s=600,
-                    min_evals={"sg_export": 950, "sg_import": 1300, "write_out_file": 620, "star_fields": 620,
-                               "star_halfset_idx": 620, "update_coord": 1000, "star_reload": 800, "inmem_roundtrip": 300,
-                               "converters": 1200})
+                    min_evals={"sg_export": 1040, "sg_import": 1100, "write_out_file": 1290, "star_fields": 1150,
+                               "star_halfset_idx": 1150, "update_coord": 1300, "star_reload": 1200, "inmem_roundtrip": 690,
+                               "converters": 1240})
     return dict(n_cases=len(CLASSES) * 4 * 120, shards=16, classes=CLASSES, timeout_s=3000,
-                min_evals={"sg_export": 18500, "sg_import": 26000, "write_out_file": 11500, "star_fields": 11500,
-                           "star_halfset_idx": 11500, "update_coord": 19000, "star_reload": 16000, "inmem_roundtrip": 6500,
-                           "converters": 23000})
+                min_evals={"sg_export": 18800, "sg_import": 19900, "write_out_file": 22000, "star_fields": 20000,
+                           "star_halfset_idx": 20000, "update_coord": 23000, "star_reload": 22500, "inmem_roundtrip": 12500,
+                           "converters": 22000})
 
 
 # ---- call monitors (Layer A) ---------------------------------------------------------------------
@@ -373,6 +377,52 @@ def _check_file(ctx, path, E, updated, reset, stage):
     return w_f is None and w_u is None
 
 
+# ---- direct calls of the monitored public methods -------------------------------------------------
+# The call monitors sg_export / sg_import / write_out_file are also reached through calls made INSIDE cryoCAT (constructors ->
+# check_df_type -> convert_to_motl, write_out -> convert_to_sg_motl, emmotl2stopgap -> write_out, ...).  Their floors must not
+# depend on that internal call structure: a behaviour-preserving refactoring may route those calls through private helpers,
+# and the check must then still be conclusive.  So the driver itself calls every monitored function with in-quantifier
+# inputs (fresh copies; positional and the documented keyword forms), and min_evals is set from these direct calls alone
+# (tools/audit_call_structure.sh runs the check with the monitors blind to cryoCAT-internal callers).
+def _direct_import(ctx, sg_df, E, monitor, mode, stage, kw, updated=False, slack=1.0):
+    """StopgapMotl().convert_to_motl(frame) called by the driver; call monitor sg_import + a driver judgement."""
+    cm = ctx.cm
+    if not isinstance(sg_df, pd.DataFrame):
+        return
+    ok, m = ctx.call("StopgapMotl()", cm.StopgapMotl)
+    if not ok:
+        return
+    frame = sg_df.copy()
+    if kw:
+        ok, _ = ctx.call("convert_to_motl(stopgap_df=,keep_halfsets=False)", m.convert_to_motl, stopgap_df=frame, keep_halfsets=False)
+    else:
+        ok, _ = ctx.call("convert_to_motl(frame)", m.convert_to_motl, frame)
+    if ok:
+        _judge(ctx, monitor, O.em_fields(m.df) if isinstance(getattr(m, "df", None), pd.DataFrame) else None, E, updated, mode, slack,
+               stage=stage, loader=stage)
+
+
+def _direct_export(ctx, df, reset, kw):
+    """StopgapMotl.convert_to_sg_motl called by the driver on a fresh copy; judged by the call monitor sg_export."""
+    cm = ctx.cm
+    if kw:
+        return ctx.call("convert_to_sg_motl(motl_df=,reset_index=)", cm.StopgapMotl.convert_to_sg_motl, motl_df=df.copy(), reset_index=reset)
+    return ctx.call("convert_to_sg_motl(df,reset)", cm.StopgapMotl.convert_to_sg_motl, df.copy(), reset)
+
+
+def _direct_write_out(ctx, m, E, updated, reset, tag, stage):
+    """obj.write_out(output_path=, update_coord=False, reset_index=) called by the driver on an object a converter returned;
+    `updated` says whether the object already is in update_coord form.  Call monitor write_out_file + the driver's file checks."""
+    p = os.path.join(ctx.scratch, "direct_%s.star" % tag)
+    ok, _ = ctx.call("obj.write_out(output_path=,update_coord=False,reset_index=)", m.write_out, output_path=p, update_coord=False,
+                     reset_index=reset)
+    if ok and os.path.exists(p):
+        _check_file(ctx, p, E, updated, reset, stage + " -> write_out")
+    elif ok:
+        ctx.check("star_fields", False, {"what": "no file written", "route": stage + " -> write_out"})
+    _rm(p)
+
+
 def _reload(ctx, case, path, E, updated):
     """Two of the four loaders per case; `updated` says whether the file already is in update_coord form."""
     cm = ctx.cm
@@ -392,6 +442,11 @@ def _reload(ctx, case, path, E, updated):
         if upd_again:
             w = O.cmp_positions_updated(G, E, "star", slack) if G is not None else {"what": "missing field"}
             ctx.check("update_coord", w is None, dict(w, stage=label) if w else None)
+    # the same file through the two public steps called directly (see "direct calls" above)
+    ok, frame = ctx.call("StopgapMotl.read_in(path)", cm.StopgapMotl.read_in, path)
+    if ok:
+        _direct_import(ctx, frame, E, "star_reload", "star", "StopgapMotl.read_in(path) + StopgapMotl().convert_to_motl(frame)",
+                       kw=bool(k % 2), updated=updated, slack=1.0 if updated else 2.0)
 
 
 def _inmem(ctx, case, t, E, rng):
@@ -404,6 +459,8 @@ def _inmem(ctx, case, t, E, rng):
         sg = sg[[sg.columns[k] for k in rng.permutation(len(sg.columns))]].copy()
         if rng.random() < 0.5:
             sg.index = rng.permutation(len(sg)) * 2 + 3
+    _direct_import(ctx, sg, E, "inmem_roundtrip", "exact", "StopgapMotl().convert_to_motl(convert_to_sg_motl(df))", kw=bool(rng.integers(0, 2)))
+    _direct_export(ctx, t, not case["reset"], kw=True)
     ok, back = ctx.call("StopgapMotl(sg_df)", cm.StopgapMotl, sg)
     if ok:
         _judge(ctx, "inmem_roundtrip", O.em_fields(back.df), E, False, "exact", stage="StopgapMotl(convert_to_sg_motl(df)).df")
@@ -517,6 +574,8 @@ def _returned_object(ctx, conv_name, conv, src, path, case, E, src_kind):
         else:
             ctx.check("star_fields", False, {"what": "no file written", "route": stage})
         _rm(path)
+    elif hasattr(m, "write_out"):
+        _direct_write_out(ctx, m, E, upd, reset, "%s_%s" % (conv_name, case["i"]), stage)
 
 
 def _converter_matrix(ctx, case, t, E, rng):
@@ -706,5 +765,8 @@ def extra(ctx):
                     _judge(ctx, "star_reload", O.em_fields(back.df), E, case["upd"], "star", 1.0 if case["upd"] else 2.0, loader="exhaustive")
             _rm(path)
             _returned_object(ctx, "emmotl2stopgap", ctx.cm.emmotl2stopgap, df, None, case, E, "df")
+            ok, sg = _direct_export(ctx, df, case["reset"], kw=bool(cfg & 2))
+            if ok:
+                _direct_import(ctx, sg, E, "inmem_roundtrip", "exact", "exhaustive: convert_to_motl(convert_to_sg_motl(df))", kw=bool(cfg & 1))
             cnt += 1
     ctx.extra["N=1..%d x reset_index x update_coord (object path, file, reload)" % K] = cnt
